@@ -153,8 +153,6 @@ def write_evidence(pid, cfg, tier, seed, results, violations, known_hits, inconc
                 programs.update(mods)
                 for x in rel[:2]:
                     samples.append({'unit': r.name, 'obligation': x})
-            for fn in r.functions[:400]:
-                functions.append('%s %s:%s [%s] text-sha256=%s' % (r.name, fn['file'], fn['line'], fn['selector'], fn['sha256']))
             for pf in (r.extra.get('harnesses') or [])[:3]:
                 samples.append({'unit': r.name, 'obligation': pf})
         for a in r.assumptions:
